@@ -461,7 +461,7 @@ def run_shard(shard, rec):
             for creator in (["none", "ok", "subclass"] if shard["mode"] == "single" else ["none", "subclass"]) + (["raises"] if shape == "truthy" else []):
                 explore(P, shard["mode"], shape, creator, shard["nthreads"], shard["bound"], shard["nrandom"], rec, r)
         return
-    make_fx = lambda: fixture.Fixture(servertype=shard["servertype"], COMMTIMEOUT=0.0, THREADPOOL_SIZE=40, THREADPOOL_SIZE_MIN=2)
+    make_fx = lambda: fixture.Fixture(servertype=shard["servertype"], COMMTIMEOUT=0.0, THREADPOOL_SIZE=40, THREADPOOL_SIZE_MIN=2, variant=fixture.variant_for(rec.seed, "c09", repr(sorted(shard.items()))))
     fx = make_fx()
     fx2 = make_fx()
     try:
